@@ -7,15 +7,18 @@ sys.path.insert(0, V)
 from checks_config import CHECKS
 bad = []
 allfuncs = {}
-for d in set(os.path.dirname(f) for f in glob.glob(V + '/harness/**/*.go', recursive=True)):
+for d in set(os.path.dirname(f) for f in glob.glob(V + '/harness/**/*.go', recursive=True)) | {V + '/harness'}:
     if os.path.basename(d).startswith('vstub'):
         continue
     src = "".join(open(f).read() for f in glob.glob(d + '/*.go'))
+    if not src:
+        continue
     funcs = set(re.findall(r'^func (Verif\w+)\(\)', src, re.M))
     reg = set(re.findall(r'"(Verif\w+)"\s*[:\]]', src))
     for f in funcs - reg:
         bad.append("not registered for native replay: %s in %s" % (f, d))
-    allfuncs["berty.tech/go-orbit-db/" + os.path.relpath(d, V + '/harness')] = funcs
+    relp = os.path.relpath(d, V + '/harness')
+    allfuncs["berty.tech/go-orbit-db" + ("" if relp == "." else "/" + relp)] = funcs
 for pid, cfg in CHECKS.items():
     for g in cfg["groups"]:
         for f in g["funcs"]:
